@@ -24,6 +24,7 @@ import IsoVerif.Driver.C03Text
 import IsoVerif.Driver.C03Ref
 import IsoVerif.Driver.C16
 import IsoVerif.Driver.C12
+import IsoVerif.Driver.C12Ids
 import IsoVerif.Driver.C07
 import IsoVerif.Driver.C11
 import IsoVerif.Driver.C01
@@ -62,6 +63,7 @@ def allOps : List (String × Handler) :=
   ++ prefixOps "C03R" C03R.ops
   ++ prefixOps "C16" C16.ops
   ++ prefixOps "C12" C12.ops
+  ++ prefixOps "C12I" C12I.ops
   ++ prefixOps "C07" C07.ops
   ++ prefixOps "C11" C11.ops
   ++ prefixOps "C01" C01.ops
